@@ -519,3 +519,115 @@ Theorem src_it_order_matches_indices S B x y :
 Proof.
   intros HS HB Hx Hy. repeat split; rewrite src_it_cmp_is_model by assumption; reflexivity.
 Qed.
+
+(* ---- C16: optional_base<T, Derived> for the eight integer types: has_value, in_range and the six
+   comparison operators (pre-C++20 set), every call inlined down to comparisons of val / the
+   opaque Derived::min_value() / max_value() / null_value() ---- *)
+Inductive optfn := FHas | FInRange | FEq | FNe | FLt | FLe | FGt | FGe.
+Definition src_opt (f : optfn) (T : ity) : list effect :=
+  match f, T with
+  | FHas, U8 => src_opt_has_value_U8
+  | FHas, U16 => src_opt_has_value_U16
+  | FHas, U32 => src_opt_has_value_U32
+  | FHas, U64 => src_opt_has_value_U64
+  | FHas, I8 => src_opt_has_value_I8
+  | FHas, I16 => src_opt_has_value_I16
+  | FHas, I32 => src_opt_has_value_I32
+  | FHas, I64 => src_opt_has_value_I64
+  | FInRange, U8 => src_opt_in_range_U8
+  | FInRange, U16 => src_opt_in_range_U16
+  | FInRange, U32 => src_opt_in_range_U32
+  | FInRange, U64 => src_opt_in_range_U64
+  | FInRange, I8 => src_opt_in_range_I8
+  | FInRange, I16 => src_opt_in_range_I16
+  | FInRange, I32 => src_opt_in_range_I32
+  | FInRange, I64 => src_opt_in_range_I64
+  | FEq, U8 => src_opt_eq_U8
+  | FEq, U16 => src_opt_eq_U16
+  | FEq, U32 => src_opt_eq_U32
+  | FEq, U64 => src_opt_eq_U64
+  | FEq, I8 => src_opt_eq_I8
+  | FEq, I16 => src_opt_eq_I16
+  | FEq, I32 => src_opt_eq_I32
+  | FEq, I64 => src_opt_eq_I64
+  | FNe, U8 => src_opt_ne_U8
+  | FNe, U16 => src_opt_ne_U16
+  | FNe, U32 => src_opt_ne_U32
+  | FNe, U64 => src_opt_ne_U64
+  | FNe, I8 => src_opt_ne_I8
+  | FNe, I16 => src_opt_ne_I16
+  | FNe, I32 => src_opt_ne_I32
+  | FNe, I64 => src_opt_ne_I64
+  | FLt, U8 => src_opt_lt_U8
+  | FLt, U16 => src_opt_lt_U16
+  | FLt, U32 => src_opt_lt_U32
+  | FLt, U64 => src_opt_lt_U64
+  | FLt, I8 => src_opt_lt_I8
+  | FLt, I16 => src_opt_lt_I16
+  | FLt, I32 => src_opt_lt_I32
+  | FLt, I64 => src_opt_lt_I64
+  | FLe, U8 => src_opt_le_U8
+  | FLe, U16 => src_opt_le_U16
+  | FLe, U32 => src_opt_le_U32
+  | FLe, U64 => src_opt_le_U64
+  | FLe, I8 => src_opt_le_I8
+  | FLe, I16 => src_opt_le_I16
+  | FLe, I32 => src_opt_le_I32
+  | FLe, I64 => src_opt_le_I64
+  | FGt, U8 => src_opt_gt_U8
+  | FGt, U16 => src_opt_gt_U16
+  | FGt, U32 => src_opt_gt_U32
+  | FGt, U64 => src_opt_gt_U64
+  | FGt, I8 => src_opt_gt_I8
+  | FGt, I16 => src_opt_gt_I16
+  | FGt, I32 => src_opt_gt_I32
+  | FGt, I64 => src_opt_gt_I64
+  | FGe, U8 => src_opt_ge_U8
+  | FGe, U16 => src_opt_ge_U16
+  | FGe, U32 => src_opt_ge_U32
+  | FGe, U64 => src_opt_ge_U64
+  | FGe, I8 => src_opt_ge_I8
+  | FGe, I16 => src_opt_ge_I16
+  | FGe, I32 => src_opt_ge_I32
+  | FGe, I64 => src_opt_ge_I64
+  end.
+
+Ltac cmps :=
+  unfold ecmp; rewrite ?Z.eqb_refl;
+  repeat match goal with
+  | |- context [Z.eqb ?a ?b] => is_var a; is_var b; destruct (Z.eqb_spec a b)
+  | |- context [Z.ltb ?a ?b] => is_var a; is_var b; destruct (Z.ltb_spec a b)
+  | |- context [Z.leb ?a ?b] => is_var a; is_var b; destruct (Z.leb_spec a b)
+  end; cbn; try reflexivity; try lia.
+
+(* the documented rules: a value is null iff it equals null_value(); null equals only null and orders
+   before every value; otherwise the underlying values compare *)
+Definition opt_spec (f : optfn) (v1 v2 null mn mx : Z) : bool :=
+  let h1 := negb (v1 =? null)%Z in
+  let h2 := negb (v2 =? null)%Z in
+  match f with
+  | FHas => h1
+  | FInRange => (mn <=? v1)%Z && (v1 <=? mx)%Z
+  | FEq => match h1, h2 with true, true => (v1 =? v2)%Z | false, false => true | _, _ => false end
+  | FNe => negb (match h1, h2 with true, true => (v1 =? v2)%Z | false, false => true | _, _ => false end)
+  | FLt => match h1, h2 with true, true => (v1 <? v2)%Z | false, true => true | _, false => false end
+  | FLe => match h1, h2 with true, true => (v1 <=? v2)%Z | false, _ => true | true, false => false end
+  | FGt => match h1, h2 with true, true => (v2 <? v1)%Z | true, false => true | false, _ => false end
+  | FGe => match h1, h2 with true, true => (v2 <=? v1)%Z | _, false => true | false, true => false end
+  end.
+
+Definition opt_env (f : optfn) (v1 v2 null mn mx : Z) : list (string * Z) :=
+  match f with
+  | FHas | FInRange => [("val", v1); ("null_value()", null); ("min_value()", mn); ("max_value()", mx)]
+  | _ => [("lhs.val", v1); ("rhs.val", v2); ("null_value()", null)]
+  end.
+
+Lemma src_opt_is_spec f T v1 v2 null mn mx :
+  in_range T v1 = true -> in_range T v2 = true -> in_range T null = true ->
+  in_range T mn = true -> in_range T mx = true ->
+  effs_eval (opt_env f v1 v2 null mn mx) (src_opt f T) = Some [zb (opt_spec f v1 v2 null mn mx)].
+Proof.
+  intros H1 H2 Hn Hmn Hmx.
+  destruct T; destruct f; unfold src_opt, opt_env, opt_spec, src_opt_has_value_U8, src_opt_has_value_U16, src_opt_has_value_U32, src_opt_has_value_U64, src_opt_has_value_I8, src_opt_has_value_I16, src_opt_has_value_I32, src_opt_has_value_I64, src_opt_in_range_U8, src_opt_in_range_U16, src_opt_in_range_U32, src_opt_in_range_U64, src_opt_in_range_I8, src_opt_in_range_I16, src_opt_in_range_I32, src_opt_in_range_I64, src_opt_eq_U8, src_opt_eq_U16, src_opt_eq_U32, src_opt_eq_U64, src_opt_eq_I8, src_opt_eq_I16, src_opt_eq_I32, src_opt_eq_I64, src_opt_ne_U8, src_opt_ne_U16, src_opt_ne_U32, src_opt_ne_U64, src_opt_ne_I8, src_opt_ne_I16, src_opt_ne_I32, src_opt_ne_I64, src_opt_lt_U8, src_opt_lt_U16, src_opt_lt_U32, src_opt_lt_U64, src_opt_lt_I8, src_opt_lt_I16, src_opt_lt_I32, src_opt_lt_I64, src_opt_le_U8, src_opt_le_U16, src_opt_le_U32, src_opt_le_U64, src_opt_le_I8, src_opt_le_I16, src_opt_le_I32, src_opt_le_I64, src_opt_gt_U8, src_opt_gt_U16, src_opt_gt_U32, src_opt_gt_U64, src_opt_gt_I8, src_opt_gt_I16, src_opt_gt_I32, src_opt_gt_I64, src_opt_ge_U8, src_opt_ge_U16, src_opt_ge_U32, src_opt_ge_U64, src_opt_ge_I8, src_opt_ge_I16, src_opt_ge_I32, src_opt_ge_I64;
+    run_src; cmps.
+Qed.
